@@ -19,6 +19,8 @@ import time as _time
 
 from .simfs import HarnessError, SimFS
 
+_R_DUP, _R_DUP2, _R_CLOSE, _R_FSTAT, _R_MEMFD, _R_PREAD = os.dup, os.dup2, os.close, os.fstat, getattr(os, "memfd_create", None), os.pread
+
 REAL = {
     "open": builtins.open,
     "io_open": io.open,
@@ -419,6 +421,18 @@ class Window:
         os._exit = sim_exit
         sv["sys.stderr"], sv["sys.stdout"], sv["sys.argv"] = sys.stderr, sys.stdout, sys.argv
         sys.stderr, sys.stdout = self.stderr, self.stdout
+        # diagnostics that bypass sys.stderr (a logging handler bound at import time, a C
+        # extension, os.write(2, ...)) still count as "reported": capture descriptor 2 as well
+        self.fd2_len = 0
+        self._fd2 = None
+        if _R_MEMFD is not None:
+            try:
+                sv["sys.stderr"].flush()
+            except Exception:
+                pass
+            mem = _R_MEMFD("verif-fd2")
+            self._fd2 = (_R_DUP(2), mem)
+            _R_DUP2(mem, 2)
         if self.argv is not None:
             sys.argv = list(self.argv)
         self.tw.in_window = True
@@ -427,6 +441,16 @@ class Window:
     def __exit__(self, et, ev, tb):
         self.tw.in_window = False
         sv = self.saved
+        if self._fd2 is not None:
+            saved2, mem = self._fd2
+            _R_DUP2(saved2, 2)
+            try:
+                self.fd2_len = _R_FSTAT(mem).st_size
+                self.fd2_text = _R_PREAD(mem, min(self.fd2_len, 4000), 0).decode("utf-8", "replace") if self.fd2_len else ""
+            finally:
+                _R_CLOSE(mem)
+                _R_CLOSE(saved2)
+            self._fd2 = None
         builtins.open = sv["builtins.open"]
         io.open = sv["io.open"]
         for key, val in sv.items():
